@@ -33,19 +33,11 @@ def body(c):
                 "CONSTANT SafeChain = %d\nCONSTANT HeavyTransports = %s\nCONSTANT Dev = {}\nINIT Init\nNEXT Next\nINVARIANT Emit\n"
                 "CONSTRAINT OnlyInit\n" % (tla_set(depths), tla_set(light), tla_set(sizes), tla_set(cuts), SAFE_DEPTH, SAFE_CHAIN, tla_set(heavy)))
     # ---- M (ideal), M (today's deviations on) and G side by side: 1 + 1 + 2 workers
-    with ThreadPoolExecutor(3) as ex:
-        fm = ex.submit(vlib.run_tlc, "conc/Hostile.tla", "conc/MC_Hostile.cfg", workers=1, timeout=1500)
-        fd = ex.submit(vlib.run_tlc, "conc/Hostile.tla", "conc/MC_HostileDev.cfg", workers=1, timeout=1500)
-        fg = ex.submit(vlib.run_tlc, "conc/Gen_Hostile.tla", gen_cfg, workers=2, timeout=1500, keep_lines=50)
-        m, d, g = fm.result(), fd.result(), fg.result()
-    for label, r in (("ideal", m), ("deviations on", d)):
-        if r.invariant_violated:
-            raise vlib.ToolError("design-level failure in Hostile.tla (%s): %s" % (label, r.invariant_violated))
-        if r.distinct < 5000:
-            raise vlib.ToolError("mode M (%s) explored only %d states" % (label, r.distinct))
-    c.add_tlc("M Hostile, no deviation: NoCrash, AnswerAllowed, <>answered", m)
-    c.add_tlc("M Hostile, today's deviations on: CrashExplained, <>answered", d)
-    c.add_tlc("G cases", g)
+    # (the two model-checking runs do not gate the harness: they are joined before mode V)
+    ex = ThreadPoolExecutor(3)
+    fm = ex.submit(vlib.run_tlc, "conc/Hostile.tla", "conc/MC_Hostile.cfg", workers=1, timeout=1500)
+    fd = ex.submit(vlib.run_tlc, "conc/Hostile.tla", "conc/MC_HostileDev.cfg", workers=1, timeout=1500)
+    g = ex.submit(vlib.run_tlc, "conc/Gen_Hostile.tla", gen_cfg, workers=2, timeout=1500, keep_lines=50).result()
     rows = [json.loads(x) for x in sorted(set(t[1] for t in g.tagged("REPLAY")))]
     if len(rows) != g.distinct and len(rows) * 2 != g.generated:
         raise vlib.ToolError("generator printed %d cases for %d initial states" % (len(rows), g.distinct))
@@ -69,6 +61,15 @@ def body(c):
     obs = vlib.read_ndjson(c.path("trace.ndjson"))
     if len(obs) != len(rows) + nmut:
         raise vlib.ToolError("harness recorded %d outcomes for %d cases" % (len(obs), len(rows) + nmut))
+    m, d = fm.result(), fd.result()
+    for label, r in (("ideal", m), ("deviations on", d)):
+        if r.invariant_violated:
+            raise vlib.ToolError("design-level failure in Hostile.tla (%s): %s" % (label, r.invariant_violated))
+        if r.distinct < 5000:
+            raise vlib.ToolError("mode M (%s) explored only %d states" % (label, r.distinct))
+    c.add_tlc("M Hostile, no deviation: NoCrash, AnswerAllowed, <>answered", m)
+    c.add_tlc("M Hostile, today's deviations on: CrashExplained, <>answered", d)
+    c.add_tlc("G cases", g)
     # ---- V
     v = vlib.run_tlc("conc/HostileTrace.tla", "conc/HostileTrace.cfg", env={"TRACE": c.path("trace.ndjson")}, workers=1,
                      timeout=3000, keep_lines=50, xmx="6g")
